@@ -7,6 +7,9 @@ is two steps: the first critical section (`Op.acquire`: admit on the fast path, 
 when `n > size`, or enqueue) and, only when its context is done, the second one (`Op.cancel`).
 A goroutine that is woken by `notifyWaiters` takes no further step (`case <-ready: return nil`).
 
+`WaitEmpty` has no critical section of its own: it is `Acquire(ctx, s.size)` followed by `Release(s.size)` (the driver
+composes it from `Op.acquire` and `Op.release`; its two reads of `s.size` outside the mutex are not modelled).
+
 The model is written the way the Go code is written (same branch order, same comparisons).
 Numbers are mathematical integers: `int64` overflow is outside the model (stated as an assumption).
 
